@@ -537,7 +537,15 @@ def n9_match_guard(src, log):
                 continue
             arrow1 = a
             if toks[arrow1 + 1].text != "{":
-                raise Unsupported("guarded match arm without block body")
+                # expression body up to the `,` that ends the arm: wrap it in a block first
+                e = arrow1 + 1
+                while e < bc and not (toks[e].text == "," and toks[e].depth == d):
+                    if toks[e].kind == "open":
+                        e = toks[e].mate
+                    e += 1
+                src = src[:toks[arrow1 + 1].start] + "{ " + src[toks[arrow1 + 1].start:toks[e - 1].end] + " }" + src[toks[e - 1].end:]
+                hit = "again"
+                break
             b1o, b1c = arrow1 + 1, toks[arrow1 + 1].mate
             nxt = b1c + 1
             if toks[nxt].text == ",":
@@ -557,6 +565,8 @@ def n9_match_guard(src, log):
             break
         if hit is None:
             return src
+        if hit == "again":
+            continue
         g, arrow1, b1o, b1c, e0, e1 = hit
         guard = src[toks[g + 1].start:toks[arrow1 - 1].end]
         other = src[toks[e0].start:toks[e1].end]
